@@ -163,6 +163,18 @@ func suiteHistory(c *ctx) {
 	for i, revs := range w {
 		runHistory(c, fmt.Sprintf("w-history-%d", i), my, revs, false, root)
 	}
+	// the fingerprint clause and the order of the tables (C04.model_fingerprint / recorded finding fingerprint-table-order):
+	// a new table listed after the old ones (inside the theorem's hypothesis), and listed before them (the finding)
+	runHistory(c, "w-history-new-table-listed-last", my, [][]Stmt{
+		{tbl("t", ints("a", "b")...), idx("t", "i", false, "b")},
+		{tbl("t", ints("a", "b")...), idx("t", "i", false, "b"), tbl("u", ints("x")...)},
+		{tbl("t", ints("a")...), tbl("u", ints("x", "y")...), tbl("v", ints("z")...)},
+		{tbl("u", ints("x", "y")...), tbl("v", ints("z")...)},
+	}, false, root)
+	runHistory(c, "w-KF-fingerprint-table-order", my, [][]Stmt{
+		{tbl("t", ints("a")...)},
+		{tbl("u", ints("x")...), tbl("t", ints("a")...)},
+	}, false, root)
 	for i := 0; i < nMem; i++ {
 		dialect := []string{"mysql", "mysql", "mysql", "mysql", "postgres", "sqlite3"}[c.rng.Intn(6)]
 		if c.dialect != "" {
@@ -187,5 +199,13 @@ func suiteHistory(c *ctx) {
 		{tbl("a", ints("x")...), tbl("b", ints("y", "z")...)},
 	}
 	runHistory(c, "w-disk-versioned", my, vrevs, true, root, true)
+	// C13-c: under the ignore-field-order option, with the history read back from a migration folder at every step, a
+	// column added in the middle and one added in front must not get a positional clause
+	runHistory(c, "w-disk-ignore-order", runCfg{dialect: "mysql", lower: false, ignore: true}, [][]Stmt{
+		{tbl("t", ints("a", "c")...)},
+		{tbl("t", ints("a", "b", "c")...)},
+		{tbl("t", ints("z", "a", "b", "c")...)},
+	}, true, root)
+	c.count("on_disk_histories")
 	c.count("on_disk_histories")
 }
